@@ -4,9 +4,10 @@
 # from a separate persistent worktree of /verif (/root/scratch/mutverif/verif), so that the main tree's
 # build directory, harness/go.mod and evidence are not disturbed. Prints the verdict.
 ID=$1; PATCH=$(realpath "$2"); shift 2
-MV=/root/scratch/mutverif/verif
-mkdir -p /root/scratch/mutverif; exec 9>/root/scratch/mutverif/.lock; flock 9   # one run at a time in the shared worktree
-if [ ! -d $MV ]; then mkdir -p /root/scratch/mutverif; git -C /verif worktree add -q --detach $MV HEAD || exit 2; fi
+MVD=${MUTVERIF:-/root/scratch/mutverif}
+MV=$MVD/verif
+mkdir -p $MVD; exec 9>$MVD/.lock; flock 9   # one run at a time in the shared worktree
+if [ ! -d $MV ]; then mkdir -p $MVD; git -C /verif worktree add -q --detach $MV HEAD || exit 2; fi
 git -C $MV checkout -q --detach $(git -C /verif rev-parse HEAD) 2>/dev/null || { git -C $MV checkout -q -- . ; git -C $MV checkout -q --detach $(git -C /verif rev-parse HEAD); }
 W=/root/scratch/mut-$$/repo
 mkdir -p /root/scratch/mut-$$
